@@ -22,8 +22,11 @@ RULES = {
     "R4": "edge completeness: in the loop over a node's inputs, recording the producer of the input as a predecessor is "
     "unconditional - the only way to skip it is the None test of the input itself (no memo, filter or early exit decides "
     "whether a dependency edge exists)",
+    "R5": "one notion of scope: whether the producer of an input takes part in the ordering is decided by membership in "
+    "the set of traversed nodes (all nesting levels), in sort() and in every helper or fast path it calls - never by "
+    "comparing the producer's graph with particular graphs (that forgets producers in intermediate nesting levels)",
 }
-FLOORS = {"R1": 2, "R2": 4, "R3": 3, "R4": 1}
+FLOORS = {"R1": 2, "R2": 4, "R3": 3, "R4": 1, "R5": 2}
 EXPLANATION = (
     "Dominance of the cycle rejection over every state-writing call of Graph.sort (effect summaries), and structural "
     "checks that relinking goes through the ownership-preserving API into the graph each node already belongs to."
@@ -165,3 +168,46 @@ def run(ctx):
                   how="control conditions of the edge-recording call inside the loop over node.inputs; exits before it",
                   construct="producer edge recorded conditionally")
     ctx.require(n_edges >= 1, "Graph.sort: loop recording the producers of node.inputs not found")
+    # R5
+    gcls = repo.cls(f"{CORE}:Graph")
+    scope_funcs = [f] + list(f.nested.values())
+    seen = {f.key}
+    work = [f]
+    while work:
+        g = work.pop()
+        for c in calls_in(g):
+            if isinstance(c.func, ast.Attribute) and norm(c.func.value) == "self" and c.func.attr in gcls.methods:
+                h = gcls.methods[c.func.attr]
+                if h.key not in seen and h.name not in ("extend", "append", "remove"):
+                    seen.add(h.key)
+                    scope_funcs.append(h)
+                    scope_funcs += list(h.nested.values())
+                    work.append(h)
+    n_cmp = 0
+    for g in scope_funcs:
+        prod = {a.targets[0].id for a in own_nodes(g.node) if isinstance(a, ast.Assign) and isinstance(a.targets[0], ast.Name)
+                and any(isinstance(c, ast.Call) and isinstance(c.func, ast.Attribute) and c.func.attr == "producer" for c in ast.walk(a.value))}
+        # parameters of nested helpers that receive a producer
+        if g.parent is not None:
+            outer_prod = {a.targets[0].id for a in own_nodes(g.parent.node) if isinstance(a, ast.Assign) and isinstance(a.targets[0], ast.Name)
+                          and any(isinstance(c, ast.Call) and isinstance(c.func, ast.Attribute) and c.func.attr == "producer" for c in ast.walk(a.value))}
+            for c in calls_in(g.parent):
+                if isinstance(c.func, ast.Name) and c.func.id == g.name:
+                    for i, arg in enumerate(c.args):
+                        if isinstance(arg, ast.Name) and arg.id in outer_prod and i < len(g.params):
+                            prod.add(g.params[i])
+        if not prod:
+            continue
+        for cmp_ in (x for x in own_nodes(g.node) if isinstance(x, ast.Compare)):
+            sides = [cmp_.left, *cmp_.comparators]
+            if not any(isinstance(y, ast.Name) and y.id in prod for sd in sides for y in ast.walk(sd)):
+                continue
+            n_cmp += 1
+            by_graph = [sd for sd in sides if isinstance(sd, ast.Attribute) and sd.attr == "graph" and isinstance(sd.value, ast.Name) and sd.value.id in prod]
+            ctx.check("R5", f"{g.local}: `{norm(cmp_)}` decides the scope by membership in the traversed nodes", not by_graph, g, cmp_,
+                      f"`{norm(cmp_)}` decides whether a producer counts by looking at the graph it belongs to: producers that live in a graph nested "
+                      "between the sorted graph and the consumer's graph are treated as 'outside', so the early exit / edge is wrong for three "
+                      "or more nesting levels",
+                      how="comparisons on producer-derived names in sort() and the helpers it calls; `<producer>.graph` never compared",
+                      construct=f"scope by graph identity: {norm(cmp_)}")
+    ctx.require(n_cmp >= 2, f"only {n_cmp} comparisons on producers found in Graph.sort and its helpers")
